@@ -26,7 +26,7 @@ PID = 'C01'
 RULE = ('cases = random systems of rank 1-3 (atomic / polymer / mixed; per pair any of PY, HNC, MSA, MS with/without hard-core flag and HardSphere, HCLJ, '
         'Exponential, LennardJones (cut/shift/none), WCA; per type SingleSite, Gaussian, FJC, GaussianRing; tabulated cross omegas; domain length 64-256 (512 thorough), dr 0.05-0.25; '
         'packing fraction 1e-3..0.4; kT 0.6-5) solved with krylov(armijo|wolfe), df-sane, anderson, broyden1 (hybr for small grids) from guesses zero / continuation / '
-        'perturbed solution / half solution; only converged solves are judged; non-trivial = converged solve with >= 3 cost evaluations; distinct = distinct (spec, method, guess) digests')
+        'perturbed solution / half solution; the Domain is reached through its constructor (dr or dk) or through setter histories, kT through the constructor or by assignment, and 30 % of the objects are solved only after hostile edits of the System they were created from; only converged solves are judged; non-trivial = converged solve with >= 3 cost evaluations; distinct = distinct (spec, method, guess) digests')
 ASSUMPTIONS = ['contact points (|r - sigma| < 1e-6) are judged by C10 and masked here',
                'MS pairs are compared with the Martynov-Sarkisov relation; a mismatch equal to the shipped expression is the known finding of C09',
                'tolerances: O1 1e-9 relative; O2 1e-11*(1+max|c|)*L/64 (observed <= 1e-14 on the unchanged tree; 1e-9..1e-6 when the arrays belong to another x); O3 1e-7*N*rho']
@@ -63,7 +63,8 @@ def cases(ctx):
     lengths = [64, 100, 128, 200, 256] + ([384, 512] if ctx.thorough() else [])
     for it in range(n):
         yield {'seed': int(rng.integers(0, 2 ** 31)), 'guess': str(rng.choice(['zero', 'zero', 'continuation', 'perturbed', 'half'])),
-               'first': int(rng.integers(0, len(METHODS))), 'lengths': lengths, 'cross': bool(rng.random() < 0.3), 'hybr': bool(rng.random() < 0.08)}
+               'first': int(rng.integers(0, len(METHODS))), 'lengths': lengths, 'cross': bool(rng.random() < 0.3), 'hybr': bool(rng.random() < 0.08),
+               'via': str(rng.choice(G.VIAS)), 'kT_via': str(rng.choice(['ctor', 'ctor', 'assign'])), 'deferred': bool(rng.random() < 0.3)}
 
 
 def oracle(ctx, sp, p, res, label):
@@ -160,9 +161,15 @@ def run_case(ctx, case):
         for (i, j), (a, b) in G.pairs(sp['types'], diagonal=False):
             sp['om'][G.pk(a, b)] = {'t': 'ARR', 'w': (float(rng.uniform(0.1, 0.8)) * np.exp(-kgrid * float(rng.uniform(0.3, 1.0)))).tolist()}
     n = len(sp['types'])
+    sp['via'] = case.get('via', 'dr')
+    sp['kT_via'] = case.get('kT_via', 'ctor')
     s = G.build(sp)                      # the user-level spec `sp` is complete before the real objects exist
     with np.errstate(all='ignore'):
         p = s.createPRISM()
+    if case.get('deferred'):
+        # the object is solved later, after the user has moved on with the System (a sweep that creates first and solves afterwards)
+        G.hostile_edits(s, rng)
+        ctx.hook('solve.deferred_after_system_edits')
     order = METHODS[case['first']:] + METHODS[:case['first']]
     if case['hybr']:
         order = [('hybr', {})] + order
@@ -202,7 +209,7 @@ def run_case(ctx, case):
             raise core.Skip('second solve from derived guess did not converge')
         res = r2
     ctx.hook('solve.converged')
-    label = '%s/%s%s/guess=%s' % (G.spec_signature(sp), used[0], '(wolfe)' if used[1] else '', case['guess'])
+    label = '%s/%s%s/guess=%s/domain-via-%s/kT-via-%s%s' % (G.spec_signature(sp), used[0], '(wolfe)' if used[1] else '', case['guess'], sp['via'], sp['kT_via'], '/deferred' if case.get('deferred') else '')
     oracle(ctx, sp, p, res, label)
     if len(_S['trace']) >= 3:
         ctx.nontrivial([case['seed'], used[0], case['guess']])
@@ -211,6 +218,9 @@ def run_case(ctx, case):
     ctx.count('method', '%s%s' % (used[0], '(wolfe)' if used[1] else ''))
     ctx.count('rank', n)
     ctx.count('guess', case['guess'])
+    ctx.count('domain_via', sp['via'])
+    ctx.count('kT_via', sp['kT_via'])
+    ctx.count('deferred_solve', bool(case.get('deferred')))
     for v in sp['clo'].values():
         ctx.count('closure', v['t'] + ('hc' if v.get('hc') else ''))
     for v in sp['pot'].values():
